@@ -33,8 +33,9 @@ def base_cfg(case):
 
 
 def patched_flag():
-    """behavioural probe of the real Dispatcher: does a departing daemon produce a BenchmarkFailure (repaired code) or an
-    escaping exception (pinned code)?"""
+    """behavioural probe of the real Dispatcher: does a departing daemon produce a BenchmarkFailure (current code since repo
+    commit 617c60f -> model flag patched=true) or an escaping exception (the code before the fix -> patched=false; the oracle
+    class daemon-departure-unreported then fires on every departure history)?"""
     global _PATCHED_FLAG
     if _PATCHED_FLAG is None:
         from harness import sim_mech
@@ -158,6 +159,8 @@ SMALL = [
     {"hosts": [[0, 9200], [0, 9201], [0, 9200]], "plans": []},
     {"hosts": [[0, 9200], [1, 9200], [1, 9201]], "plans": ["ok", "ok", ["failPrepare", 0]], "convs": [[True, 1]]},
     {"hosts": [[0, 9200], [1, 9200]], "plans": [], "convs": [], "external": True},
+    {"hosts": [[0, 9200], [1, 9200], [2, 9200]], "plans": [], "convs": [[True, 2], [True, 1]], "stop": False},
+    {"hosts": [[0, 9200], [0, 9201], [0, 9202]], "plans": ["ok", "failEarly"]},
 ]
 
 
@@ -243,7 +246,9 @@ def oracle(ctx, spec, r):
         processed = any(o[0] == "recv" and o[1] == f"n{h}" and o[3][0] == "startNodes" for o in outs)
         if processed and h in failing and not reported_by_node:
             ctx.fail("start-failure-unreported", f"failing start on host group {h} produced no BenchmarkFailure")
-    all_joined = not any(o == ["notify", True] for o in outs) or any(o == ["notify", False] for o in outs)
+    remote_ips = {ip for ip, _ in r["groups"]["keys"] if ip != 0}
+    joined = {o[3][2] for o in outs if o[:3] == ["recv", "disp", "sys"] and o[3][:2] == ["conv", True]}
+    all_joined = remote_ips <= joined
     if r["quiescent"] and started_rc and H > 0 and all_joined and not (n_started or fails):
         ctx.fail("start-hangs", "all daemons joined, nothing left to deliver, race control has neither EngineStarted nor a failure", None, inbox)
     # daemon_departure_reported
@@ -366,6 +371,14 @@ def run_exhaustive(ctx, case):
     spec = case["spec"]
     prefix, paths, complete = [], 0, False
     outcomes = set()
+    seen, report = set(), ctx.fail
+
+    def fail_once(cls, *a, **k):  # one failing input per class and configuration is enough
+        if cls not in seen:
+            seen.add(cls)
+            report(cls, *a, **k)
+
+    ctx.fail = fail_once
     while paths < case["max_paths"]:
         sim = sim_mech.Sim(spec)
         ch = Chooser(prefix)
@@ -383,14 +396,15 @@ def run_exhaustive(ctx, case):
             complete = True
             break
         prefix = nxt
+    ctx.fail = report
     ctx.count("schedules", paths)
-    ctx.notes[json.dumps(spec["hosts"]) + json.dumps(spec["plans"]) + ("x" if spec.get("external") else "")] = {"schedules": paths, "complete": complete, "outcomes": sorted(outcomes)}
+    ctx.notes[json.dumps([spec["hosts"], spec["plans"], spec["convs"], spec["external"], spec["stop"]])] = {"schedules": paths, "complete": complete, "outcomes": sorted(outcomes)}
     ctx.sig([spec["hosts"], spec["plans"], sorted(outcomes), complete], nontrivial=True)
 
 
 STREAMS = [
-    Stream("histories", gen_histories, run_history, quick=2400, thorough=60000, shards=12),
-    Stream("inject", gen_inject, run_inject, quick=800, thorough=20000, shards=4),
-    Stream("groups", gen_groups, run_groups, quick=300, thorough=5000, shards=1),
-    Stream("exhaustive", gen_exhaustive, run_exhaustive, quick=150, thorough=200000, shards=10, exhaustive_thorough=True),
+    Stream("histories", gen_histories, run_history, quick=9600, thorough=120000, shards=12),
+    Stream("inject", gen_inject, run_inject, quick=3000, thorough=40000, shards=6),
+    Stream("groups", gen_groups, run_groups, quick=500, thorough=5000, shards=1),
+    Stream("exhaustive", gen_exhaustive, run_exhaustive, quick=3000, thorough=200000, shards=12, exhaustive_thorough=True),
 ]
